@@ -198,7 +198,7 @@ def _reassign_precisions(best, scores):
     # Enforce the new cardinality
     for prec in range(num_precisions):
         # Get the number of channels that should be assigned to this precision
-        target_count = int(best[prec].item())
+        target_count = int(round(best[prec].item()))
 
         # If no channels must have this precision, reassign all the channels at the
         # current precision.
@@ -211,20 +211,17 @@ def _reassign_precisions(best, scores):
         # 'target_count' channels to this precision.
         # First, get the indices of channels currently assigned to this precision and
         # the top 'target_count' channels for this precision based on the alpha values
-        prec_indices = (current_assignment == prec).nonzero(as_tuple=True)[0]
-        top_indices = sorted_indices[prec][:target_count]
+        # (best score first), so that only channels not kept by their own precision are moved
+        prec_indices = sorted_indices[prec][current_assignment[sorted_indices[prec]] == prec]
 
-        # Assign those top channels to this precision
-        new_assignment[top_indices] = prec
-
-        # Reassign the remaining channels
+        # Keep the top 'target_count' of them and reassign the remaining channels
         excess_channels = prec_indices[target_count:]
         if len(excess_channels) > 0:
             new_assignment[excess_channels] = -1  # Temporarily mark as unassigned
 
     # Reassign channels marked as unassigned to precisions that need more channels
     for prec in range(num_precisions):
-        target_count = int(best[prec].item())
+        target_count = int(round(best[prec].item()))
         current_count = (new_assignment == prec).sum().item()
 
         # If there are not enough channels assigned to this precision, use the unassigned channels
